@@ -234,6 +234,57 @@ def run_unit(unit):
                             agg.violation(V("vector.sort_by", "sorting-a-sorted-vector-changes-it", case, want, list(again._underlying), py))
                         agg.outcomes["vector-agree"] += 1
         agg.sample({"vector-sort": kind, "len": n})
+    elif what == "large":
+        # size thresholds: a sort that switches algorithm / takes a shortcut beyond some length (16, 32, 64 ... rows)
+        from serif import Vector, Table
+        for n in (15, 16, 17, 31, 32, 33, 63, 64, 65, 100, 129):
+            pats = {
+                "few-values": [(i * 7) % 5 for i in range(n)],
+                "with-none": [None if i % 6 == 2 else (i * 5) % 4 for i in range(n)],
+                "descending-run": list(range(n, 0, -1)),
+                "already-sorted": list(range(n)),
+                "all-equal": [1] * n,
+                "strings": [None if i % 9 == 4 else "abc"[(i * 2) % 3] for i in range(n)],
+            }
+            k1 = [i % 3 for i in range(n)]
+            for pname, k0 in pats.items():
+                for nkeys in (1, 2):
+                    keycols = [k0] if nkeys == 1 else [k0, k1]
+                    for revs in itertools.product([False, True], repeat=nkeys):
+                        for na_last in (True, False):
+                            want = spec_sort(list(range(n)), keycols, list(revs), na_last)
+                            for form in ("name", "external"):
+                                agg.evals += 1; agg.transitions += 1; agg.states += 1; agg.nontrivial += 1; agg.compared += 1
+                                case = {"family": "larger tables", "rows": n, "pattern": pname, "nkeys": nkeys, "reverse": list(revs), "na_last": na_last, "form": form}
+                                try:
+                                    t = Table([Vector(list(range(n)), name="pos")] + ([Vector(list(c), name=f"k{j}") for j, c in enumerate(keycols)] if form == "name" else []))
+                                    by = [f"k{j}" for j in range(nkeys)] if form == "name" else [Vector(list(c)) for c in keycols]
+                                    res = t.sort_by(by, reverse=list(revs), na_last=na_last)
+                                    got = list(res._underlying[0]._underlying)
+                                except Exception as e:
+                                    agg.violation(V("table.sort_by.large", "raises-" + type(e).__name__, case, None, repr(e)[:80]))
+                                    continue
+                                if got != want:
+                                    agg.violation(V("table.sort_by.large", classify(got, want, keycols, list(revs), na_last) if sorted(got) == list(range(n)) else "not-a-permutation",
+                                                    case, want[:20], got[:20]))
+                                else:
+                                    agg.outcomes["large-agree"] += 1
+                    if nkeys == 1:
+                        for rev in (False, True):
+                            for na_last in (True, False):
+                                agg.evals += 1; agg.transitions += 1; agg.compared += 1
+                                wantv = [k0[i] for i in spec_sort(list(range(n)), [k0], [rev], na_last)]
+                                case = {"family": "larger vectors", "len": n, "pattern": pname, "reverse": rev, "na_last": na_last}
+                                try:
+                                    gotv = list(Vector(list(k0)).sort_by(reverse=rev, na_last=na_last)._underlying)
+                                except Exception as e:
+                                    agg.violation(V("vector.sort_by.large", "raises-" + type(e).__name__, case, None, repr(e)[:80]))
+                                    continue
+                                if gotv != wantv:
+                                    agg.violation(V("vector.sort_by.large", "wrong-order", case, wantv[:20], gotv[:20]))
+                                else:
+                                    agg.outcomes["large-agree"] += 1
+        agg.sample({"family": "larger tables and vectors", "sizes": [15, 16, 17, 31, 32, 33, 63, 64, 65, 100, 129]})
     elif what == "rename":
         # rename columns through live views so that a NAME moves to another column, then sort by that name
         from serif import Vector, Table
@@ -381,6 +432,7 @@ def check(ctx):
     units += [("rename", k) for k in ("int", "str")]
     units += [("swap", k, pol) for k in ("intc", "int", "str") for pol in ("fresh", "recycle")]
     units += [("hist", "intc", 3)]
+    units += [("large",)]
     agg = core.merge_all(core.pmap(run_unit, units))
     agg.notes["bound"] = f"tables rows<={N} (1 key) / <={N2} (2 keys) / <={ctx.pick(2,3)} (3 keys); vectors len<={N}"
     agg.notes["exhaustive"] = True
